@@ -46,6 +46,14 @@ inductive LoadResult
   | panic
   deriving Inhabited
 
+def LoadResult.isOk : LoadResult → Bool
+  | .ok _ => true
+  | _ => false
+
+def LoadResult.isPanic : LoadResult → Bool
+  | .panic => true
+  | _ => false
+
 /-- `if err := a; err != nil { return err }; b` -/
 @[inline] def Chk.andThen (a : Chk) (b : Unit → Chk) : Chk :=
   match a with
